@@ -19,151 +19,150 @@ theorem i32At_extra (buf x : Bytes) (id : Int) (r : Bytes) (h : i32At buf = .ok 
     · rw [List.take_append_of_le_length (by omega), h1]
     · rw [List.drop_append_of_le_length (by omega), h2]
 
+theorem getD_extra (r x : Bytes) (hr : ¬ r.length < 2) :
+    (r ++ x).getD 0 0 = r.getD 0 0 ∧ (r ++ x).getD 1 0 = r.getD 1 0 ∧ (r ++ x).drop 2 = r.drop 2 ++ x := by
+  match r, hr with
+  | [], h => simp at h
+  | [_], h => simp at h
+  | a :: b :: t, _ => simp
+
+theorem hs_extra (st st' : PState) (buf x : Bytes)
+    (h : handleEvent st EV_FRAME_START buf = .ok st') : handleEvent st EV_FRAME_START (buf ++ x) = .ok st' := by
+  unfold handleEvent at h ⊢
+  simp only [EV_FRAME_START, EV_PAYLOADS, EV_SPLITTER, EV_GECKO, EV_GAME_START, EV_GAME_END, Nat.reduceEqDiff, ↓reduceIte] at h ⊢
+  cases hi : i32At buf with
+  | err e => simp [hi, bind] at h
+  | panic e => simp [hi, bind] at h
+  | ok p =>
+    obtain ⟨id, r⟩ := p
+    rw [i32At_extra buf x id r hi]
+    simp only [hi, bind] at h ⊢
+    generalize (if st.start.version.lt 3 0 = true then _ else st : PState) = st2 at h ⊢
+    cases hsc : st2.frames.start with
+    | none => simp [hsc] at h
+    | some sc =>
+      simp only [hsc] at h ⊢
+      cases hr : rowOrEof st.start.version Start.readPush r with
+      | err e => simp [hr] at h
+      | panic e => simp [hr] at h
+      | ok row => rw [rowOrEof_extra _ _ _ x row hr]; simpa [hr] using h
+
+theorem hpre_extra (st st' : PState) (buf x : Bytes)
+    (h : handleEvent st EV_FRAME_PRE buf = .ok st') : handleEvent st EV_FRAME_PRE (buf ++ x) = .ok st' := by
+  unfold handleEvent at h ⊢
+  simp only [EV_FRAME_PRE, EV_FRAME_START, EV_PAYLOADS, EV_SPLITTER, EV_GECKO, EV_GAME_START, EV_GAME_END, Nat.reduceEqDiff, ↓reduceIte] at h ⊢
+  cases hi : i32At buf with
+  | err e => simp [hi, bind] at h
+  | panic e => simp [hi, bind] at h
+  | ok p =>
+    obtain ⟨id, r⟩ := p
+    rw [i32At_extra buf x id r hi]
+    simp only [hi, bind] at h ⊢
+    by_cases hl : r.length < 2
+    · simp [hl] at h
+    · have hl' : ¬ ((r ++ x).length < 2) := by simp only [List.length_append]; omega
+      obtain ⟨g0, g1, g2⟩ := getD_extra r x hl
+      simp only [hl, hl', ↓reduceIte] at h ⊢
+      rw [g0, g1, g2]
+      cases hr : rowOrEof st.start.version Pre.readPush (r.drop 2) with
+      | ok row => rw [rowOrEof_extra _ _ _ x row hr]; simp only [hr] at h; exact h
+      | err e =>
+        exfalso; simp only [hr] at h
+        split at h <;> try (simp at h)
+        split at h <;> try (simp at h)
+        split at h <;> simp at h
+      | panic e =>
+        exfalso; simp only [hr] at h
+        split at h <;> try (simp at h)
+        split at h <;> try (simp at h)
+        split at h <;> simp at h
+
+theorem hpost_extra (st st' : PState) (buf x : Bytes)
+    (h : handleEvent st EV_FRAME_POST buf = .ok st') : handleEvent st EV_FRAME_POST (buf ++ x) = .ok st' := by
+  unfold handleEvent at h ⊢
+  simp only [EV_FRAME_POST, EV_FRAME_PRE, EV_FRAME_START, EV_PAYLOADS, EV_SPLITTER, EV_GECKO, EV_GAME_START, EV_GAME_END, Nat.reduceEqDiff, ↓reduceIte] at h ⊢
+  cases hi : i32At buf with
+  | err e => simp [hi, bind] at h
+  | panic e => simp [hi, bind] at h
+  | ok p =>
+    obtain ⟨id, r⟩ := p
+    rw [i32At_extra buf x id r hi]
+    simp only [hi, bind] at h ⊢
+    by_cases hl : r.length < 2
+    · simp [hl] at h
+    · have hl' : ¬ ((r ++ x).length < 2) := by simp only [List.length_append]; omega
+      obtain ⟨g0, g1, g2⟩ := getD_extra r x hl
+      simp only [hl, hl', ↓reduceIte] at h ⊢
+      rw [g0, g1, g2]
+      cases hr : rowOrEof st.start.version Post.readPush (r.drop 2) with
+      | ok row => rw [rowOrEof_extra _ _ _ x row hr]; simp only [hr] at h; exact h
+      | err e =>
+        exfalso; simp only [hr] at h
+        split at h <;> try (simp at h)
+        split at h <;> simp at h
+      | panic e =>
+        exfalso; simp only [hr] at h
+        split at h <;> try (simp at h)
+        split at h <;> simp at h
+
+theorem hend_extra (st st' : PState) (buf x : Bytes)
+    (h : handleEvent st EV_FRAME_END buf = .ok st') : handleEvent st EV_FRAME_END (buf ++ x) = .ok st' := by
+  unfold handleEvent at h ⊢
+  simp only [EV_FRAME_END, EV_FRAME_POST, EV_FRAME_PRE, EV_FRAME_START, EV_PAYLOADS, EV_SPLITTER, EV_GECKO, EV_GAME_START, EV_GAME_END, Nat.reduceEqDiff, ↓reduceIte] at h ⊢
+  cases hi : i32At buf with
+  | err e => simp [hi, bind] at h
+  | panic e => simp [hi, bind] at h
+  | ok p =>
+    obtain ⟨id, r⟩ := p
+    rw [i32At_extra buf x id r hi]
+    simp only [hi, bind] at h ⊢
+    cases hr : rowOrEof st.start.version End.readPush r with
+    | ok row => rw [rowOrEof_extra _ _ _ x row hr]; simp only [hr] at h; exact h
+    | err e =>
+      exfalso; simp only [hr] at h
+      split at h <;> try (simp at h)
+      split at h <;> try (simp at h)
+      split at h <;> try (simp at h)
+      split at h <;> simp at h
+    | panic e =>
+      exfalso; simp only [hr] at h
+      split at h <;> try (simp at h)
+      split at h <;> try (simp at h)
+      split at h <;> try (simp at h)
+      split at h <;> simp at h
+
+theorem hitem_extra (st st' : PState) (buf x : Bytes)
+    (h : handleEvent st EV_ITEM buf = .ok st') : handleEvent st EV_ITEM (buf ++ x) = .ok st' := by
+  unfold handleEvent at h ⊢
+  simp only [EV_ITEM, EV_FRAME_END, EV_FRAME_POST, EV_FRAME_PRE, EV_FRAME_START, EV_PAYLOADS, EV_SPLITTER, EV_GECKO, EV_GAME_START, EV_GAME_END, Nat.reduceEqDiff, ↓reduceIte] at h ⊢
+  cases hi : i32At buf with
+  | err e => simp [hi, bind] at h
+  | panic e => simp [hi, bind] at h
+  | ok p =>
+    obtain ⟨id, r⟩ := p
+    rw [i32At_extra buf x id r hi]
+    simp only [hi, bind] at h ⊢
+    cases hr : rowOrEof st.start.version Item.readPush r with
+    | ok row => rw [rowOrEof_extra _ _ _ x row hr]; simp only [hr] at h; exact h
+    | err e =>
+      exfalso; simp only [hr] at h
+      split at h <;> try (simp at h)
+      split at h <;> simp at h
+    | panic e =>
+      exfalso; simp only [hr] at h
+      split at h <;> try (simp at h)
+      split at h <;> simp at h
+
 /-- **C08 (longer payloads), event level**: extra trailing bytes on a frame event do not change what the handler does -/
 theorem handleEvent_extra (st st' : PState) (code : Nat) (buf x : Bytes) (hc : isFrameEv code = true)
     (h : handleEvent st code buf = .ok st') : handleEvent st code (buf ++ x) = .ok st' := by
   simp only [isFrameEv, Bool.or_eq_true, beq_iff_eq] at hc
-  unfold handleEvent at h ⊢
-  have getD0 : ∀ (r : Bytes), 2 ≤ r.length → (r ++ x).getD 0 0 = r.getD 0 0 ∧ (r ++ x).getD 1 0 = r.getD 1 0 ∧ (r ++ x).drop 2 = r.drop 2 ++ x := by
-    intro r hr
-    match r, hr with
-    | a :: b :: t, _ => simp
   rcases hc with (((hc | hc) | hc) | hc) | hc <;> subst hc
-  · -- Frame Start
-    simp only [EV_FRAME_START, EV_PAYLOADS, EV_SPLITTER, EV_GECKO, EV_GAME_START, EV_GAME_END, Nat.reduceEqDiff, ↓reduceIte] at h ⊢
-    cases hi : i32At buf with
-    | err e => simp [hi, bind] at h
-    | panic e => simp [hi, bind] at h
-    | ok p =>
-      obtain ⟨id, r⟩ := p
-      rw [i32At_extra buf x id r hi]
-      simp only [hi, bind] at h ⊢
-      split at h
-      · exact h
-      · rename_i sc hsc
-        simp only [hsc]
-        cases hr : rowOrEof st.start.version Start.readPush r with
-        | err e => simp [hr] at h
-        | panic e => simp [hr] at h
-        | ok row => rw [rowOrEof_extra _ _ _ x row hr]; simpa [hr] using h
-  · -- Frame Pre
-    simp only [EV_FRAME_PRE, EV_FRAME_START, EV_PAYLOADS, EV_SPLITTER, EV_GECKO, EV_GAME_START, EV_GAME_END, Nat.reduceEqDiff, ↓reduceIte] at h ⊢
-    cases hi : i32At buf with
-    | err e => simp [hi, bind] at h
-    | panic e => simp [hi, bind] at h
-    | ok p =>
-      obtain ⟨id, r⟩ := p
-      rw [i32At_extra buf x id r hi]
-      simp only [hi, bind] at h ⊢
-      by_cases hl : r.length < 2
-      · simp [hl] at h
-      · have hl' : ¬ ((r ++ x).length < 2) := by simp only [List.length_append]; omega
-        obtain ⟨g0, g1, g2⟩ := getD0 r (by omega)
-        simp only [hl, hl', ↓reduceIte, g0, g1, g2] at h ⊢
-        cases hs1 : st.slotIdx (r.getD 0 0).toNat ((r.getD 1 0) != 0) with
-        | err e => simp [hs1] at h
-        | panic e => simp [hs1] at h
-        | ok pi0 =>
-          simp only [hs1] at h ⊢
-          generalize hS : (if st.start.version.gte 2 2 = true then (do st.expectId id; pure st : Res PState)
-            else
-              let last := st.lastId.getD (FIRST_INDEX - 1)
-              if last + 1 ≤ 2147483647 ∧ last + 1 = id then
-                pure { st with frames := { st.frames.close with id := st.frames.id ++ [id] } }
-              else do st.expectId id; pure st) = S at h ⊢
-          cases S with
-          | err e => simp at h
-          | panic e => simp at h
-          | ok st2 =>
-            simp only at h ⊢
-            cases hs2 : st2.slotIdx (r.getD 0 0).toNat ((r.getD 1 0) != 0) with
-            | err e => simp [hs2] at h
-            | panic e => simp [hs2] at h
-            | ok pi =>
-              simp only [hs2] at h ⊢
-              cases hr : rowOrEof st.start.version Pre.readPush (r.drop 2) with
-              | err e => simp [hr] at h
-              | panic e => simp [hr] at h
-              | ok row => rw [rowOrEof_extra _ _ _ x row hr]; simpa [hr] using h
-  · -- Frame Post
-    simp only [EV_FRAME_POST, EV_FRAME_PRE, EV_FRAME_START, EV_PAYLOADS, EV_SPLITTER, EV_GECKO, EV_GAME_START, EV_GAME_END, Nat.reduceEqDiff, ↓reduceIte] at h ⊢
-    cases hi : i32At buf with
-    | err e => simp [hi, bind] at h
-    | panic e => simp [hi, bind] at h
-    | ok p =>
-      obtain ⟨id, r⟩ := p
-      rw [i32At_extra buf x id r hi]
-      simp only [hi, bind] at h ⊢
-      by_cases hl : r.length < 2
-      · simp [hl] at h
-      · have hl' : ¬ ((r ++ x).length < 2) := by simp only [List.length_append]; omega
-        obtain ⟨g0, g1, g2⟩ := getD0 r (by omega)
-        simp only [hl, hl', ↓reduceIte, g0, g1, g2] at h ⊢
-        cases he : st.expectId id with
-        | err e => simp [he] at h
-        | panic e => simp [he] at h
-        | ok u =>
-          simp only [he] at h ⊢
-          cases hs2 : st.slotIdx (r.getD 0 0).toNat ((r.getD 1 0) != 0) with
-          | err e => simp [hs2] at h
-          | panic e => simp [hs2] at h
-          | ok pi =>
-            simp only [hs2] at h ⊢
-            cases hr : rowOrEof st.start.version Post.readPush (r.drop 2) with
-            | err e => simp [hr] at h
-            | panic e => simp [hr] at h
-            | ok row => rw [rowOrEof_extra _ _ _ x row hr]; simpa [hr] using h
-  · -- Frame End
-    simp only [EV_FRAME_END, EV_FRAME_POST, EV_FRAME_PRE, EV_FRAME_START, EV_PAYLOADS, EV_SPLITTER, EV_GECKO, EV_GAME_START, EV_GAME_END, Nat.reduceEqDiff, ↓reduceIte] at h ⊢
-    cases hi : i32At buf with
-    | err e => simp [hi, bind] at h
-    | panic e => simp [hi, bind] at h
-    | ok p =>
-      obtain ⟨id, r⟩ := p
-      rw [i32At_extra buf x id r hi]
-      simp only [hi, bind] at h ⊢
-      split at h
-      · exact h
-      · rename_i ec hec
-        simp only [hec]
-        cases he : st.expectId id with
-        | err e => simp [he] at h
-        | panic e => simp [he] at h
-        | ok u =>
-          simp only [he] at h ⊢
-          split at h
-          · rename_i offs items ho hit
-            simp only [ho, hit]
-            by_cases hlt : items.length < offs.getLastD 0
-            · simp [hlt] at h
-            · simp only [hlt, ↓reduceIte] at h ⊢
-              cases hr : rowOrEof st.start.version End.readPush r with
-              | err e => simp [hr] at h
-              | panic e => simp [hr] at h
-              | ok row => rw [rowOrEof_extra _ _ _ x row hr]; simpa [hr] using h
-          · simp at h
-  · -- Item
-    simp only [EV_ITEM, EV_FRAME_END, EV_FRAME_POST, EV_FRAME_PRE, EV_FRAME_START, EV_PAYLOADS, EV_SPLITTER, EV_GECKO, EV_GAME_START, EV_GAME_END, Nat.reduceEqDiff, ↓reduceIte] at h ⊢
-    cases hi : i32At buf with
-    | err e => simp [hi, bind] at h
-    | panic e => simp [hi, bind] at h
-    | ok p =>
-      obtain ⟨id, r⟩ := p
-      rw [i32At_extra buf x id r hi]
-      simp only [hi, bind] at h ⊢
-      split at h
-      · exact h
-      · rename_i items hitm
-        simp only [hitm]
-        cases he : st.expectId id with
-        | err e => simp [he] at h
-        | panic e => simp [he] at h
-        | ok u =>
-          simp only [he] at h ⊢
-          cases hr : rowOrEof st.start.version Item.readPush r with
-          | err e => simp [hr] at h
-          | panic e => simp [hr] at h
-          | ok row => rw [rowOrEof_extra _ _ _ x row hr]; simpa [hr] using h
+  · exact hs_extra st st' buf x h
+  · exact hpre_extra st st' buf x h
+  · exact hpost_extra st st' buf x h
+  · exact hend_extra st st' buf x h
+  · exact hitem_extra st st' buf x h
 
 /-- `es'` is `es` with extra trailing bytes on some frame events -/
 inductive Longer : List (Nat × Bytes) → List (Nat × Bytes) → Prop
